@@ -95,10 +95,10 @@ Section Composite.
   Proof.
     intros Hi Hj. unfold recon, RbasexProofs.gq.
     set (g := quad_geom h w row col rmax odd N).
-    set (bs := get_image_bs None g (out_dims OSame g)).
+    set (bs := fst (get_image_bs None g (out_dims OSame g))).
     assert (Ebs : bs = (fst (fst (out_dims OSame g)), snd (fst (out_dims OSame g)),
                         if odd then row else 0%nat)).
-    { unfold bs, get_image_bs, fresh_ibs, out_dims, g.
+    { unfold bs, get_image_bs, fresh_ibs, out_dims, g. cbn [fst].
       rewrite qg_odd, qg_h, qg_row, qg_VER, qg_HOR, qg_Qh, qg_Qw, qg_y0. cbn [fst snd].
       destruct odd.
       - destruct ((h =? _)%nat && _) eqn:E; [|reflexivity]. f_equal. lia.
@@ -124,7 +124,7 @@ End Composite.
 (* ---- all out values return the same distributions (structural) --------------------- *)
 (* rbasex_transform returns (image or None, profiles): the profiles c are
    computed before `out` is looked at (rbasex.py:181-216) *)
-Definition rbasex_result (cache : option ibs) (out : option outv) (g : geom) (c : list (list R))
+Definition rbasex_result (cache : ibs_cache) (out : option outv) (g : geom) (c : list (list R))
   : option (list (list R)) * list (list R) :=
   (match out with None => None | Some o => Some (recon Rops sqrtR cache o g c) end, c).
 
@@ -132,22 +132,48 @@ Theorem distr_independent_of_out cache cache' out out' g c :
   snd (rbasex_result cache out g c) = snd (rbasex_result cache' out' g c).
 Proof. reflexivity. Qed.
 
-(* ---- the image-basis cache is not keyed by the output geometry --------------------- *)
-(* same image parameters (5 x 5 image, centre origin, rmax = 1, order 0):
-   out='same' fills the cache with a 3 x 3 basis; a following out='full' (which
-   needs the 2 x 2 basis) then returns an array of another shape than with a
-   fresh cache *)
-Definition stale_g : geom := quad_geom 5 5 2 2 1 false 1.
-Definition stale_c : list (list Q) := [[fx 1%Q; fx 1%Q]].
-Definition stale_cache : option ibs := Some (get_image_bs None stale_g (out_dims OSame stale_g)).
-Definition shape_eqb (a b : nat * nat) : bool := Nat.eqb (fst a) (fst b) && Nat.eqb (snd a) (snd b).
+(* ---- the image does not depend on earlier calls (image-basis cache) ------------------ *)
+(* invariant of the cache while _dst stays the same: the stored arrays are
+   those of the stored request *)
+Definition cache_ok (g : geom) (cache : ibs_cache) : Prop :=
+  match cache with Some (k, bs) => bs = fresh_ibs g k | None => True end.
 
-Theorem ibs_stale_refuted :
-  exists (g : geom) (c : list (list Q)) (cache : option ibs),
-    cache = Some (get_image_bs None g (out_dims OSame g)) /\
-    shape_eqb (shape_of (recon Qops sqrt_sign cache OFull g c))
-              (shape_of (recon Qops sqrt_sign None OFull g c)) = false.
-Proof. exists stale_g, stale_c, stale_cache. split; [reflexivity|]. vm_compute. reflexivity. Qed.
+Lemma req_eqb_eq a b : req_eqb a b = true -> a = b.
+Proof.
+  destruct a as [[a1 a2] a3], b as [[b1 b2] b3]. unfold req_eqb. cbn [fst snd]. intros H.
+  apply andb_true_iff in H. destruct H as [H H3]. apply andb_true_iff in H. destruct H as [H1 H2].
+  apply Nat.eqb_eq in H1, H2, H3. subst. reflexivity.
+Qed.
+
+Lemma get_image_bs_fresh g cache req : cache_ok g cache ->
+  fst (get_image_bs cache g req) = fresh_ibs g req /\ cache_ok g (snd (get_image_bs cache g req)).
+Proof.
+  unfold get_image_bs, cache_ok. destruct cache as [[k bs]|]; intros H.
+  - destruct (req_eqb k req) eqn:E; cbn [fst snd].
+    + apply req_eqb_eq in E. subst k. split; [exact H|exact H].
+    + split; reflexivity.
+  - cbn [fst snd]. split; reflexivity.
+Qed.
+
+Lemma cache_after_history_ok g history : cache_ok g (cache_after_history g history).
+Proof.
+  unfold cache_after_history.
+  assert (G : forall st, cache_ok g st -> cache_ok g (fold_left (fun st o => cache_after st o g) history st)).
+  { induction history as [|o hs IH]; intros st Hst; cbn [fold_left]; [exact Hst|].
+    apply IH. unfold cache_after. apply get_image_bs_fresh. exact Hst. }
+  apply G. exact I.
+Qed.
+
+(* after any history of calls with the same image parameters (any out values,
+   no clean-up) the returned image is the one a fresh cache gives *)
+Theorem ibs_history_independent (A : Type) (O : field_ops A) (sqrtn : nat -> A) g history out c :
+  recon O sqrtn (cache_after_history g history) out g c = recon O sqrtn None out g c.
+Proof.
+  unfold recon.
+  destruct (get_image_bs_fresh g (cache_after_history g history) (out_dims out g)
+                               (cache_after_history_ok g history)) as [E _].
+  rewrite E. reflexivity.
+Qed.
 
 (* ---- invalid radii ---------------------------------------------------------------------- *)
 (* get_bs_cached masks the rows of the transform matrices at radii without
